@@ -8,6 +8,73 @@ from mathy_core import problems as PR  # noqa: E402
 from mathy_core import util as UT  # noqa: E402
 
 
+import re
+
+_ITEM = re.compile(r"^(-?)((?:\d+\.?\d*|\.\d+)?)([a-zA-Z]?)(?:\^(\d+))?$")
+
+
+def _cp(text):
+    return "-" if text == "" else ",".join(str(ord(c)) for c in text)
+
+
+def item_wire(text):
+    """`[number]var[^k]` or a bare number -> wire form of the model's PItem; None if not that shape"""
+    m = _ITEM.match(text.strip())
+    if not m:
+        return None
+    sign, num, var, power = m.groups()
+    if var == "":
+        if num == "" or power is not None:
+            return None
+        return f"N:{'m' if sign else 'p'}{_cp(num)}"
+    if num == "" and sign:
+        return None
+    coef = "-" if num == "" else f"{'m' if sign else 'p'}{_cp(num)}"
+    return f"T:{coef}:{var}:{_cp(power) if power is not None else '-'}"
+
+
+def shape_wire(text):
+    """derive the model's problem shape from a generated text (None = not an instance)"""
+    t = text.strip()
+    m = re.match(r"^\((.+?) \+ (.+?)\)\((.+?) \+ (.+?)\)$", t)
+    if m:
+        ws = [item_wire(x) for x in m.groups()]
+        if None not in ws:
+            return "binomial " + " ".join(ws)
+    m = re.match(r"^\((.+?) \+ (.+?)\) \* ([^()]+)$", t)
+    if m and "(" not in t[1:]:
+        ws = [item_wire(x) for x in m.groups()]
+        if None not in ws:
+            return "monomial " + " ".join(ws)
+    # flat chain: items separated by " + ", " - ", " * " with at most one parenthesised group
+    parts = re.split(r" ([+\-*]) ", t)
+    items, ops = parts[0::2], parts[1::2]
+    gs = ge = None
+    clean = []
+    for i, it in enumerate(items):
+        if it.startswith("("):
+            if gs is not None:
+                return None
+            gs = i
+            it = it[1:]
+        if it.endswith(")"):
+            if ge is not None:
+                return None
+            ge = i
+            it = it[:-1]
+        clean.append(it)
+    if (gs is None) != (ge is None):
+        return None
+    ws = [item_wire(x) for x in clean]
+    if None in ws:
+        return None
+    grp = "-" if gs is None else f"{gs},{ge}"
+    out = ["flatproblem", grp, ws[0]]
+    for o, w in zip(ops, ws[1:]):
+        out += [o, w]
+    return " ".join(out)
+
+
 class Recorder:
     """records every draw the generators make from the `random` module (the module functions
     problems.py calls are wrapped for the duration of one generator call)"""
@@ -96,6 +163,7 @@ def c17(ctx):
     n_eval = 0
     nontrivial = 0
     per_gen = {}
+    ctx.generated = []   # (generator, text, promises_like)
     state = random.getstate()
     try:
         for pretty in (True, False):
@@ -117,6 +185,7 @@ def c17(ctx):
                     if not (isinstance(complexity, int) and complexity > 0):
                         bad.append({"generator": name, "seed": seed, "pretty": pretty, "text": text,
                                     "problem": f"complexity {complexity!r} is not a positive integer"})
+                    ctx.generated.append((name, text, promises_like))
                     try:
                         tree = core.parse_fresh(text)
                     except Exception as e:  # noqa
@@ -215,7 +284,35 @@ def run(ctx):
             unlisted.append(b)
         else:
             ctx.known_finding(f"{f['id']}: {f['what']} (reproduced, e.g. seed {b.get('seed')})")
-    finish(ctx, [("problems", unlisted)], [], "generated problems are valid and contain what they promise")
+    # shape correspondence: every generated text must be an instance of the modelled shapes, the
+    # model's tokens for that instance must be the real tokens, the instance must be well formed
+    # (and promise like terms where the generator does)
+    from . import parse_run as pr
+    drv = core.Driver()
+    lines, meta, diffs = [], [], []
+    for name, text, promises in ctx.generated:
+        w = shape_wire(text)
+        if w is None:
+            diffs.append({"generator": name, "text": text, "problem": "not an instance of the modelled problem shapes"})
+            continue
+        lines.append(w)
+        meta.append((name, text, promises))
+    ans = drv.ask(lines)
+    for (name, text, promises), a in zip(meta, ans):
+        toks = a.split()
+        if len(toks) < 3 or not toks[0].startswith("ok="):
+            diffs.append({"generator": name, "text": text, "model": a[:200]})
+            continue
+        ok, like = toks[0] == "ok=true", toks[1] == "like=true"
+        mt = pr.model_tok_answer(" ".join(toks[2:]))
+        rt = pr.impl_tok(text, False)
+        real = [x for x in rt[1][:-1]] if rt[0] == "toks" else None
+        if not ok or (promises and not like) or real is None or mt[1] != real:
+            diffs.append({"generator": name, "text": text, "model_ok": ok, "model_like": like, "promises": promises,
+                          "model_tokens": str(mt)[:200], "real_tokens": str(real)[:200]})
+    ctx.coverage["traces_validated_against_impl"] += len(lines)
+    ctx.notes["texts_matched_to_model_shapes"] = len(lines)
+    finish(ctx, [("problems", unlisted)], [("shape", diffs)], "generated problems are valid and contain what they promise")
 
 
 CHECKS = {"C17": run}
